@@ -1164,8 +1164,18 @@ func (w *World) ruleWriters(p *Pkg, out *[]Obligation) {
 					Detail: "a field of " + p.TName() + " is written (or its address taken) outside Set"})
 			}
 		}
-		// composite literals of T
+		// composite literals of T (and new(T), which is all-zero by construction)
 		ast.Inspect(fd.Body, func(x ast.Node) bool {
+			if call, ok := x.(*ast.CallExpr); ok && len(call.Args) == 1 {
+				if id, ok := call.Fun.(*ast.Ident); ok && id.Name == "new" {
+					if _, isB := p.Info.Uses[id].(*types.Builtin); isB {
+						if tv, ok := p.Info.Types[call.Args[0]]; ok && tv.IsType() && types.Identical(tv.Type, p.T) {
+							*out = append(*out, Obligation{Rule: "R06.fresh", Instance: p.Key + "." + n + ".literal", Pos: p.pos(call), OK: true, NonTrivial: true,
+								Detail: "new(" + p.TName() + ") is all-zero (every metric starts at code 0)"})
+						}
+					}
+				}
+			}
 			cl, ok := x.(*ast.CompositeLit)
 			if !ok {
 				return true
